@@ -2820,6 +2820,10 @@ func ruleJsonScanClosing(p *Prog, r *Report, name string) {
 		}
 	}
 	if disp == nil || first == nil {
+		if m := p.scannerStepMethod(fn); m != nil {
+			r.Assume(rule, name, "a closing brace reaches the brace count", p.Pos(fn.Pos()), "the scanner's state is kept in a struct updated by "+p.Name(m)+": this clause is decided for a scanner written inline in the read loop only")
+			return
+		}
 		r.Unknown(rule, name, "a closing brace reaches the brace count", p.Pos(fn.Pos()), "the scanner's test for '}' was not found")
 		return
 	}
@@ -3381,6 +3385,10 @@ func ruleJsonScanEscape(p *Prog, r *Report, name string) {
 		}
 	})
 	if upd == nil {
+		if m := p.scannerStepMethod(fn); m != nil {
+			r.Assume(rule, name, "the escape flag follows every byte of a string", p.Pos(fn.Pos()), "the scanner's state is kept in a struct updated by "+p.Name(m)+": this clause is decided for a scanner written inline in the read loop only")
+			return
+		}
 		r.Unknown(rule, name, "the escape flag follows every byte of a string", p.Pos(fn.Pos()), "no comparison of the byte with a backslash found in the read loop")
 		return
 	}
@@ -3558,4 +3566,28 @@ func ruleJsonScanEscape(p *Prog, r *Report, name string) {
 	} else {
 		r.Bad(rule, name, "the escape flag follows every byte of a string", bad, "inside a string a byte can return to the read (from "+bad+") without the escape flag having been recomputed: after an escape such as \\\\n the flag stays set and the next quote is taken for an escaped one")
 	}
+}
+
+// scannerStepMethod: the read loop of fn hands the received byte to a method / function of the module (the scanner's state lives in
+// a struct that the method updates). The two byte-level clauses of JSON.escape are decided for the inline form only.
+func (p *Prog) scannerStepMethod(fn *ssa.Function) *ssa.Function {
+	var out *ssa.Function
+	eachInstr(fn, func(b *ssa.BasicBlock, in ssa.Instruction) {
+		c, ok := in.(*ssa.Call)
+		if !ok || innermostLoopHeader(b) == nil {
+			return
+		}
+		g := staticCallee(&c.Call)
+		if g == nil || !p.InModule(g) {
+			return
+		}
+		for _, a := range c.Call.Args {
+			if u, ok := a.(*ssa.UnOp); ok {
+				if ia, ok := u.X.(*ssa.IndexAddr); ok && isByteSlice(ia.X.Type()) {
+					out = g
+				}
+			}
+		}
+	})
+	return out
 }
